@@ -10,7 +10,7 @@ RULE = ("correspondence: exhaustive (pattern,name) pairs over small alphabets + 
         "semantics re-implemented independently in Python vs the implementation, native vs Sphinx representation, "
         "inv: links rendered through the docutils front end; non-trivial = pattern contains '*' or '\\\\' "
         "or the filter result is neither empty nor everything")
-TRUSTED = ["coq/Inv/WildModel.v is a hand transcription of _create_regex/match_with_wildcard/filter_inventories",
+TRUSTED = ["_create_regex / match_with_wildcard: translated from the source by gen/py2coq.py + gen/c19_wild.py (domain mapping: re.escape(c) -> PLit c, '.*' -> PStar, re.compile(r, re.DOTALL) -> (r, true)) and proved equal to the model (C19_wildcard_correct_src); filter_inventories / to_sphinx / render_link_inventory in coq/Inv are hand transcriptions tied by correspondence",
            "Python re: re.escape(c) matches exactly c; '.*' with DOTALL matches any run (exercised by the correspondence over a metacharacter alphabet)",
            "functools.lru_cache returns what the wrapped function returns"]
 ORACLES = {"O_re": "re.compile(re.escape(c)) matches only c; '.*' under DOTALL matches every string: checked by comparing the model with re on all pairs over the metacharacter alphabet",
@@ -19,7 +19,15 @@ ASSUMPTIONS = ["dict iteration order = insertion order (CPython >= 3.7)"]
 
 
 def gen(ctx):
+    """Gen/WildSrc.v: _create_regex translated statement by statement from the source (gen/py2coq.py);
+    Inv/WildSrcProofs.v proves it equal to the hand-written model, so the theorems hold for what the code says now."""
+    import hashlib
+    from lib import common
+    from gen.c19_wild import generate
     ctx.gen_info["sources"] = src_hashes(["myst_parser/inventory.py"])
+    text = generate(common.REPO)
+    common.write_if_changed(common.COQ / "Gen" / "WildSrc.v", text)
+    ctx.gen_info["Gen/WildSrc.v"] = hashlib.sha256(text.encode()).hexdigest()[:16]
 
 
 # ------------------------------------------------------------------ independent spec
